@@ -126,6 +126,9 @@ func runS1(t *testing.T, spec s1Spec) {
 			ev.Case(sigOf(r), false, classes, nil)
 			return
 		}
+		if r.Unjudged > 0 {
+			classes = append(classes, "passed-over-unjudged-disagreement:"+r.AbortFacet)
+		}
 		nt := spec.NonTrivial(r)
 		ev.Case(sigOf(r), nt, classes, func() any { return s })
 		if err != nil {
